@@ -310,6 +310,7 @@ def c_gearbox(i_dw, o_dw, msb_first):
     h.ensure("ens.head", z3.Implies(b(h.v(source.valid)), z3.And(uge(glen, o_dw), dout == z3.Extract(lcm - 1, lcm - o_dw, gq))))
     h.ensure("ens.cap",  z3.Implies(in_fire, ule(plen, lcm - i_dw)))
     h.ensure("ens.present", z3.Implies(uge(glen, o_dw), b(h.v(source.valid))))
+    hold_clause(h, source)
     h.respond("resp.move", z3.And(b(h.v(sink.valid)), b(h.v(source.ready))), z3.Or(in_fire, out_fire), 1)
     h.cover("cover.deliver", out_fire, depth=lcm // i_dw + 3)
     h.functions = ["litex.soc.interconnect.stream.Gearbox.__init__", "litex.soc.interconnect.stream.inc_mod", "litex.soc.interconnect.stream.lcm"]
